@@ -330,9 +330,12 @@ class FactBase:
                     self.overriders.setdefault(o, set()).add(m['m'])
 
     # ---- lookup
-    def fn(self, q, required=True):
-        """the unique definition with this qualified name (overloads: first by line)"""
+    def fn(self, q, required=True, params=None):
+        """the unique definition with this qualified name (overloads: first by line, or select by the
+        list of parameter type substrings `params`)"""
         l = self.byq.get(q)
+        if l and params is not None:
+            l = [f for f in l if len(f.d.get('params', [])) == len(params) and all(p in fp['t'] for p, fp in zip(params, f.d['params']))]
         if not l:
             if required:
                 raise AnalysisBroken('anchor function %s not found in %d TUs' % (q, len(self.tus)))
